@@ -419,6 +419,16 @@ func driveC12(o opts) error {
 		}
 		w.Add(emit.Case{Term: term, JSON: map[string]interface{}{"target": kind, "value": js},
 			Key: "msg" + kind + js, Nontrivial: len(js) > 8, Class: "message:" + kind})
+		// what the decoded request selects, as its accessors answer (absent members stand for yes)
+		if mr, ok := v.(ovsdb.MonitorRequest); ok {
+			var back ovsdb.MonitorRequest
+			if json.Unmarshal([]byte(js), &back) == nil && back.Select != nil {
+				sel := back.Select
+				w.Add(emit.Case{Term: fmt.Sprintf("CSel %s %v %v %v %v", monreqTerm(syms, back), sel.Initial(), sel.Insert(), sel.Delete(), sel.Modify()),
+					JSON: map[string]interface{}{"target": "monitor_select", "value": js}, Key: "sel" + js, Nontrivial: true, Class: "message:select-kinds"})
+			}
+			_ = mr
+		}
 	}
 	for i := 0; i < n; i++ {
 		switch g.Intn(9) {
